@@ -428,6 +428,21 @@ def split_conv_jobs(tier):
     return jobs
 
 
+def slice_conv_jobs(tier):
+    """crop along H / W / C folded into a padded or strided kernel operator (netgen kind single:slice_conv): read offsets on the
+    height, width and channel axes of convolutions, depthwise convolutions and pools"""
+    import compiles
+    rng = random.Random("c10-slice/%s" % vlib.seed())
+    accs = compiles.U55 + compiles.U65
+    jobs = []
+    for i in range(24 if tier == "quick" else 400):
+        args = ["--accelerator-config", "ethos-u55-128" if i % 3 == 0 else accs[i % len(accs)]]
+        if i % 5 == 4:
+            args += ["--optimise", rng.choice(["Size", "Performance"])]
+        jobs.append({"family": "single:slice_conv", "seed": "c10slice-%d-%d" % (vlib.seed(), i), "args": args, "capture": True})
+    return jobs
+
+
 def upscale_jobs(tier):
     """x2 upscaling operators between convolutions (netgen family upscale_chain), compiled with the Performance strategy and
     arenas between "nothing fits" and "everything fits", so that the NEAREST-upscaling operator is cascaded and striped by
@@ -692,18 +707,21 @@ def _run(tier, res, b):
         padding, skirt = ps[1:5], ps[5:9]
         for woff in (0, 2):
             tcases.append([0, 0, woff, 0, 1, 5, woff + Wo, Dd, 1, 1, s] + skirt + [1, 5, W, Dd, BT_CONV, 0, 0, woff, 0, 1] + [0] * 9 + [1, 0])
-            tmeta.append(("w", W, k, d, s, pad, t, bb, Wo, woff, 0, W, padding, skirt))
+            tmeta.append(("w", W, k, d, s, pad, t, bb, Wo, woff, 0, W, padding, skirt, woff, woff + Wo))
         # the operator reads the window [off, off+W) of a wider tensor (split / slice fused into the consumer)
+        # (the padding attributes of the operator belong to the window: add_padding_fields sees the slice's output shape)
         for off, extra in ((3, 4), (1, 0)):
-            _, ps2 = real_padding_and_skirt(PADCODE[pad], k, 1, s, 1, d, 1, 5, off + W + extra, (0, t, 0, bb))
-            tcases.append([0, 0, 0, 0, 1, 5, Wo, Dd, 1, 1, s] + ps2[5:9] + [1, 5, off + W + extra, Dd, BT_CONV, 0, 0, 0, 0, 1] +
+            tcases.append([0, 0, 0, 0, 1, 5, Wo, Dd, 1, 1, s] + skirt + [1, 5, off + W + extra, Dd, BT_CONV, 0, 0, 0, 0, 1] +
                           [1, 0, 0, off, 0, 1, 5, W, Dd] + [1, 0])
-            tmeta.append(("w", W, k, d, s, pad, t, bb, Wo, 0, off, off + W + extra, ps2[1:5], ps2[5:9]))
+            tmeta.append(("w", W, k, d, s, pad, t, bb, Wo, 0, off, off + W + extra, padding, skirt, 0, Wo))
             H = W
-            _, ps3 = real_padding_and_skirt(PADCODE[pad], 1, k, 1, s, 1, d, off + H + extra, 5, (t, 0, bb, 0))
-            tcases.append([0, 0, 0, 0, 1, Wo, 5, Dd, 1, s, 1] + ps3[5:9] + [1, off + H + extra, 5, Dd, BT_CONV, 0, 0, 0, 0, kd] +
-                          [1, 0, off, 0, 0, 1, H, 5, Dd] + [1, 0])
-            tmeta.append(("h", H, k, d, s, pad, t, bb, Wo, 0, off, off + H + extra, ps3[1:5], ps3[5:9]))
+            _, ps3 = real_padding_and_skirt(PADCODE[pad], 1, k, 1, s, 1, d, H, 5, (t, 0, bb, 0))
+            for step in sorted({Wo, 1, 2, 3} & set(range(1, Wo + 1))):      # the whole operator, and rows in stripes
+                for st in range(0, Wo, step):
+                    en = min(st + step, Wo)
+                    tcases.append([0, st, 0, 0, 1, en, 5, Dd, 1, s, 1] + ps3[5:9] + [1, off + H + extra, 5, Dd, BT_CONV, 0, 0, 0, 0, kd] +
+                                  [1, 0, off, 0, 0, 1, H, 5, Dd] + [1, 0])
+                    tmeta.append(("h", H, k, d, s, pad, t, bb, Wo, 0, off, off + H + extra, ps3[1:5], ps3[5:9], st, en))
     treal = [real_transform(c) for c in tcases]
     for c, m, r in zip(tcases, mrun("transform", tcases), treal):
         ncorr["transform(width, read offsets)"] += 1
@@ -711,7 +729,7 @@ def _run(tier, res, b):
             note_diff("Box.transform_with_strides_and_skirt", c, m, r)
     pcases, pmeta = [], []
     for c, r, me in zip(tcases, treal, tmeta):
-        (axis, W, k, d, s, pad, t, bb, Wo, woff, off, full, padding, skirt) = me
+        (axis, W, k, d, s, pad, t, bb, Wo, woff, off, full, padding, skirt, st, en) = me
         if r[0] != 1:
             if off == 0:
                 finding({"kind": "transform_assertion", "axis": axis}, {"case": c, "meta": me}, "transform raises on a valid full-width stripe")
@@ -722,7 +740,9 @@ def _run(tier, res, b):
             else:
                 finding({"kind": "transform_assertion", "axis": axis}, {"case": c, "meta": me}, "transform raises on a stride-1 read window")
             continue
-        pcases.append([0, 0] + padding + [1, 1, r[9], r[10], 1 if off else 0, off if axis == "w" else 0, W if axis == "w" else 5,
+        whole = axis == "w" or (st == 0 and en >= Wo)
+        pcases.append([0, 0] + padding + [1 if (axis == "w" or st == 0) else 0, 1 if (axis == "w" or en >= Wo) else 0, r[9], r[10],
+                       1 if off else 0, off if axis == "w" else 0, W if axis == "w" else 5,
                        full if axis == "w" else 5, r[3], r[7]])
         pmeta.append((me, r))
     preal = [real_create_padding(c) for c in pcases]
@@ -731,17 +751,19 @@ def _run(tier, res, b):
         if m is not None and m != r:
             note_diff("create_padding", c, m, r)
     for (me, tr), pr in zip(pmeta, preal):
-        (axis, W, k, d, s, pad, t, bb, Wo, woff, off, full, padding, skirt) = me
+        (axis, W, k, d, s, pad, t, bb, Wo, woff, off, full, padding, skirt, st, en) = me
         evals += 1
         top = (t if pad == "EXPLICIT" else padding[0 if axis == "h" else 1])
         if axis == "w":
             mm = stripe_tap_mismatch(tr[3], tr[7], pr[1], pr[3], woff, woff + Wo, s, k, d, off, off + W, top, woff)
         else:
-            mm = stripe_tap_mismatch(tr[2], tr[6], pr[0], pr[2], 0, Wo, s, k, d, off, off + W, top, 0)
-        nontrivial.add((axis, min(W, 40), k, d, s, pad, t, bb, woff, off))
+            mm = stripe_tap_mismatch(tr[2], tr[6], pr[0], pr[2], st, en, s, k, d, off, off + W, top, 0)
+        nontrivial.add((axis, min(W, 40), k, d, s, pad, t, bb, woff, off, st, en))
+        if mm and pad == "EXPLICIT" and Wo > W:
+            continue       # OFM taller than IFM: the open finding explicit_pad_ofm_taller_than_ifm_last_stripe (decided in section 3)
         if mm and not (pad == "EXPLICIT" and off == 0 and (k, s, t, bb) == (2, 3, 1, 1)):
             wit = dict(axis=axis, extent=W, tensor_extent=full, read_offset=off, kernel=k, dilation=d, stride=s, padding=pad, pad_before=t,
-                       pad_after=bb, ofm_extent=Wo, write_offset=woff, ifm_box=[tr[2 if axis == "h" else 3], tr[6 if axis == "h" else 7]],
+                       pad_after=bb, ofm_extent=Wo, ofm_range=[st, en], write_offset=woff, ifm_box=[tr[2 if axis == "h" else 3], tr[6 if axis == "h" else 7]],
                        hw_pad_before=pr[0 if axis == "h" else 1], hw_pad_after=pr[2 if axis == "h" else 3], ofm_index=mm[0], tap=mm[1],
                        hardware_reads=mm[2], operator_reads=mm[3], skirt=skirt, op_padding=padding)
             known_broken = off and (s > 1 if axis == "w" else (s > 1 or padding[0] + padding[2] > 0))
@@ -1150,7 +1172,7 @@ def _run(tier, res, b):
     lap('generator')
     # ---------------------------------------------------------------- 8. D2: stripe groups of every captured stream
     import compiles
-    d2 = compiles.run_all(c10_corpus_jobs() + compiles.corpus_jobs() + split_conv_jobs(tier) + upscale_jobs(tier) +
+    d2 = compiles.run_all(c10_corpus_jobs() + compiles.corpus_jobs() + split_conv_jobs(tier) + slice_conv_jobs(tier) + upscale_jobs(tier) +
                           compiles.plan(FAMS, 64 if tier == "quick" else 1600, vlib.seed(), tag="d2", capture=True))
     programs = passes_checked = stripes_checked = rolling_checked = channels_checked = 0
     vcases, vwant = [], []
